@@ -32,6 +32,7 @@ EXPLANATION = (
     "joined by value have identical name->value maps (qlink_interface read from its installed source); every EPRSocket API method "
     "passes all same-named parameters on to the sibling method / EntRequestParams it delegates to; the create_epr / recv_epr "
     "operand roles agree between builder, instruction class and executor."
+    ' A slot of the request array is written under tests on the request type and its own field only; LinkLayerCreate has one default per field (the executor zips arguments, fields and defaults). C11.Z: no truthiness test on an int-typed value.'
 )
 LEVEL_TEXT = (
     "Static analysis, partial: all 40 index constants, all request parameters, all result attributes, all forwarding call sites and "
